@@ -404,6 +404,14 @@ func (r *Raft) restore() error {
 		r.configuration = &configuration
 	}
 
+	// A node that is started again after being stopped keeps its state machine and what it
+	// had applied. A configuration at or below that index is committed and will not be
+	// applied again.
+	if r.configuration != nil && r.configuration.Index <= r.lastApplied {
+		committedConfiguration := r.configuration.Clone()
+		r.committedConfiguration = &committedConfiguration
+	}
+
 	return nil
 }
 
